@@ -704,7 +704,8 @@ pub fn message(base: &[Msg], mi: u64, thorough: bool) -> Msg {
             // variants of endless streams: the same unit with a different phase
             let shift = 1 + (vi as usize * 7) % 61;
             let mut bytes = b.bytes.clone();
-            bytes.rotate_left(shift.min(bytes.len().saturating_sub(1)));
+            let by = shift.min(bytes.len().saturating_sub(1));
+            bytes.rotate_left(by);
             Msg { name: format!("{}~phase{shift}#{vi}", b.name), bytes, endless: true }
         } else {
             mutate(b, bi, vi)
